@@ -74,6 +74,11 @@ def run(ctx):
     from checks.c10 import load
 
     prog, S, M = load(ctx.repo)
+
+    from sa.xmlchemy_model import ALL_PARTS, mechanism_gate  # noqa: F401
+
+
+    mechanism_gate(ctx, M, ("insert", "remover", "adder"))
     T = Types(prog, M)
     ctx.level = "other"
     ctx.trusted = ["CPython ast / xml.etree", "dml-chart.xsd / dml-main.xsd under /repo/spec as oracle",
